@@ -51,6 +51,13 @@ pub struct Case {
     pub fault: Fault,
     pub plan: Plan,
     pub sizes: Vec<u32>,
+    /// > 0: the LZMA2 / LZIP stream is read with the multi-threaded reader and this many workers (real threads)
+    #[serde(default)]
+    pub mt_workers: u8,
+}
+
+thread_local! {
+    static MT_WORKERS: std::cell::Cell<u8> = const { std::cell::Cell::new(0) };
 }
 
 pub struct C05;
@@ -227,7 +234,24 @@ impl Target {
         Ok(v)
     }
 
-    fn read_from<R: Read + 'static>(&self, src: R, orig_len: usize, sizes: &[u32], cap: usize) -> io::Result<Vec<u8>> {
+    fn read_from<R: Read + std::io::Seek + 'static>(&self, src: R, orig_len: usize, sizes: &[u32], cap: usize) -> io::Result<Vec<u8>> {
+        #[cfg(not(lzma_rust2_verif_shuttle))]
+        {
+            let workers = MT_WORKERS.with(|c| c.get()) as u32;
+            if workers > 0 {
+                match self {
+                    Target::Lzma { framing: Framing::Lzma2 { .. }, opts } => {
+                        let mut r = lzma_rust2::LZMA2ReaderMT::new(src, opts.dict_size, None, workers);
+                        return read_all(&mut r, sizes, cap);
+                    }
+                    Target::Lzip(_) => {
+                        let mut r = lzma_rust2::LZIPReaderMT::new(src, workers)?;
+                        return read_all(&mut r, sizes, cap);
+                    }
+                    _ => {}
+                }
+            }
+        }
         match self {
             Target::Lzma { framing, opts } => match framing {
                 Framing::Lzma2 { .. } => {
@@ -310,15 +334,18 @@ impl Property for C05 {
             fault_strategy(reader),
             plan_strategy(),
             read_sizes_strategy(),
+            prop_oneof![1 => Just(0u8), 1 => 1u8..=4],
         )
-            .prop_map(|(data, target, fault, plan, sizes)| {
+            .prop_map(move |(data, target, fault, plan, sizes, mt)| {
                 let plan = if matches!(target, Target::Bcj { .. }) { Plan::All } else { plan };
+                let mt_capable = matches!(target, Target::Lzip(_) | Target::Lzma { framing: Framing::Lzma2 { .. }, .. });
                 Case {
                     data,
                     target,
                     fault,
                     plan,
                     sizes,
+                    mt_workers: if reader && mt_capable && !cfg!(lzma_rust2_verif_shuttle) { mt } else { 0 },
                 }
             })
             .boxed()
@@ -372,6 +399,8 @@ impl Property for C05 {
         let data = case.data.expand();
         let t = &case.target;
         obs.class(t.name());
+        MT_WORKERS.with(|c| c.set(case.mt_workers));
+        obs.class_if(case.mt_workers > 0, "mt_reader");
         let cap = data.len() + (1 << 20);
         let kind_of = |k: u8| KINDS[k as usize % 4];
         match &case.fault {
@@ -409,6 +438,12 @@ impl Property for C05 {
                         } else {
                             vec![]
                         };
+                        // LZMA2: cuts exactly at chunk boundaries are always tried (they must fail: no end marker)
+                        let chunk_starts: Vec<usize> = if let Target::Lzma { framing: Framing::Lzma2 { .. }, .. } = t {
+                            crate::walk::walk_lzma2(&stream).chunks.iter().map(|c| c.offset).collect()
+                        } else {
+                            vec![]
+                        };
                         let points: Vec<usize> = if stream.len() <= 4096 {
                             (0..stream.len()).collect()
                         } else {
@@ -417,6 +452,9 @@ impl Property for C05 {
                             let mut p: Vec<usize> = (0..64).chain(stream.len() - 64..stream.len()).collect();
                             for _ in 0..128 {
                                 p.push(r.below(stream.len() as u64) as usize);
+                            }
+                            for &c in &chunk_starts {
+                                p.push(c.min(stream.len() - 1));
                             }
                             for (b, _) in &boundaries {
                                 for d in 0..3usize {
